@@ -450,6 +450,9 @@ fn fuzz_campaigns(id: &str, seed: u64, merged: &mut Report, infra: &mut Vec<Stri
             .arg(format!("-artifact_prefix={}/", artifacts.display()))
             .env("CARGO_NET_OFFLINE", "true")
             .env("VERIF_FUZZ_PROPERTY", id)
+            // -detect_leaks=0 only stops libFuzzer's per-input leak checks; LeakSanitizer's
+            // report at process exit is switched off here.
+            .env("ASAN_OPTIONS", "detect_leaks=0")
             .current_dir(&work)
             .stdin(Stdio::null())
             .stdout(Stdio::null())
